@@ -435,7 +435,7 @@ type Sentence struct {
 }
 
 // Level of the corpus: 1 = one sentence per rule; 2 = + every (rule, position, child rule);
-// 3 = + all empty/non-empty combinations of nullable RHS symbols; 4 = + 3-paths.
+// 3 = + all empty/non-empty combinations of nullable RHS symbols; 4 = + 3-paths; 5 = + pairs of positions.
 func (g *Gram) Sentences(level int) []Sentence {
 	a := g.A
 	var out []Sentence
@@ -565,6 +565,49 @@ func (g *Gram) Sentences(level int) []Sentence {
 							mid = append(mid, g.Expand(q.RHS[j+1:])...)
 							mid = append(mid, g.Expand(p.RHS[i+1:])...)
 							add(wrap(c, mid), r3.N, fmt.Sprintf("rule %d pos %d child %d pos %d child %d", n, i, q.N, j, r3.N))
+						}
+					}
+				}
+			}
+		}
+	}
+	if level >= 5 {
+		// pairs: every rule with two of its right-hand-side nonterminals expanded by every pair of their
+		// alternatives at once (catches actions that are only wrong for a combination, e.g. `trait` +
+		// `implements`); positions where both symbols have many alternatives (expr x expr) are left to the
+		// operator enumeration of C03.
+		for _, n := range a.RuleNum {
+			p := a.Rules[n]
+			c, ok := g.Ctxs[p.LHS]
+			if !ok || !usable(p) {
+				continue
+			}
+			for i, si := range p.RHS {
+				if !a.IsNT[si] {
+					continue
+				}
+				for j := i + 1; j < len(p.RHS); j++ {
+					sj := p.RHS[j]
+					if !a.IsNT[sj] {
+						continue
+					}
+					if len(a.ByLHS[si]) > 12 && len(a.ByLHS[sj]) > 12 {
+						continue
+					}
+					for _, qi := range a.ByLHS[si] {
+						if !usable(qi) {
+							continue
+						}
+						for _, qj := range a.ByLHS[sj] {
+							if !usable(qj) {
+								continue
+							}
+							mid := g.Expand(p.RHS[:i])
+							mid = append(mid, g.Expand(qi.RHS)...)
+							mid = append(mid, g.Expand(p.RHS[i+1:j])...)
+							mid = append(mid, g.Expand(qj.RHS)...)
+							mid = append(mid, g.Expand(p.RHS[j+1:])...)
+							add(wrap(c, mid), n, fmt.Sprintf("rule %d pair pos %d child %d pos %d child %d", n, i, qi.N, j, qj.N))
 						}
 					}
 				}
